@@ -145,8 +145,8 @@ theorem anonymous_accepted (guid : Bytes) (w : RealWorld) (reads : List Bytes) (
 
 /-- EXTERNAL with peer credentials is accepted under every splitting of
 `\0AUTH EXTERNAL\r\nDATA\r\nBEGIN\r\n`, as the passwd name of the peer uid. -/
-theorem external_accepted (guid : Bytes) (w : RealWorld) (uid : Nat) (e : PwEnt)
-    (hc : w.cfg.creds = some uid) (hu : getpwuid w.cfg uid = some e)
+theorem external_accepted (guid : Bytes) (w : RealWorld) (uid : Int) (e : PwEnt)
+    (hc : w.cfg.creds = some uid) (hu : getpwuidI w.cfg uid = some e)
     (reads : List Bytes) (hall : ∀ r ∈ reads, r ≠ [])
     (hflat : reads.flatten = 0 :: encodeLines [lit "AUTH EXTERNAL", lit "DATA", lit "BEGIN"]) :
     (runReads real (Proto.init guid w) reads).authenticated = true ∧
